@@ -424,6 +424,24 @@ def _expression_tables(E: Engine, rep: Report) -> None:
         rep.check(fwd in enum_un or fwd in enum_bin, "EXPR-TABLE", f"deser-table|{k}|in-schema-enum", f"operator '{k}' corresponds to schema expression '{fwd}'", f"deserializer operator '{k}' (expression '{fwd}') is not in the schema enum", sch_where)
 
 
+    # each operator name decodes to the function of that name, and no two names decode to the same function
+    # (the writer emits the wrapped function's __name__; the reader looks that name up in these tables)
+    seen_fn: dict[str, str] = {}
+    for tname in ("UNARY_OPERATORS", "BINARY_OPERATORS"):
+        node = sigmod.assigns.get(tname)
+        if not isinstance(node, ast.Dict):
+            raise AnalysisError(f"anchor: {tname} is not a dict literal")
+        for k_, v_ in zip(node.keys, node.values):
+            if not isinstance(k_, ast.Constant):
+                continue
+            fn_ = dotted(v_) or norm(v_)
+            last = fn_.split(".")[-1]
+            ok_name = last == k_.value or last.strip("_").startswith(k_.value + "_") or last.strip("_") == k_.value
+            rep.check(ok_name, "EXPR-TABLE", f"{tname}|{k_.value}|decodes-to-function-of-that-name", f"'{k_.value}' -> {fn_}", f"{tname}['{k_.value}'] is {fn_}: an expression serialised as '{k_.value}' is rebuilt with a different function, so a decoded sequence evaluates other values than the original", f"{sigmod.relpath}:{v_.lineno}")
+            rep.check(fn_ not in seen_fn, "EXPR-TABLE", f"{tname}|{k_.value}|function-not-shared", "no other operator name decodes to this function", f"'{k_.value}' and '{seen_fn.get(fn_)}' both decode to {fn_}", f"{sigmod.relpath}:{v_.lineno}")
+            seen_fn.setdefault(fn_, k_.value)
+
+
 def _legacy_tables(E: Engine, rep: Report) -> None:
     P = E.P
     sup = P.module("pulser.json.supported")
